@@ -299,6 +299,11 @@ def probe_state():
                            + O('INVOKE'))
         if exc is None and st:
             cs.append((name, st[-1].decode()))
+    # an id only ever supplied through a run's contracts= argument
+    st, exc = run_prog(isa.push(b'a') + isa.push(b'\x01')
+                       + isa.push(b'\x55' * 4) + O('INVOKE'))
+    if exc is None:
+        cs.append(('run-local-id', 'LEAKED'))
     out.append(tuple(cs))
     # interfaces
     ifs = []
